@@ -668,6 +668,11 @@ class Library:
                 return T.zext(v.w, 64, v)
             return v
 
+        @reg(r'^<.* as PartialEq(<.*>)?>::ne$', 'PartialEq::ne (default method: !eq)')
+        def _ne(fr, name, args, ops):
+            r = I.call(fr, name[:-4] + '::eq', args, ops)
+            return T.lnot(r)
+
         from . import libstr
         libstr.register(self)
 
